@@ -22,4 +22,6 @@ done
 git -C /repo apply -R "$dir/patch.diff"
 git -C /repo checkout -- . 2>/dev/null
 if [ -n "$(git -C /repo status --porcelain)" ]; then echo "WARNING: /repo not clean after revert" >&2; git -C /repo status --short >&2; fi
+# rebuild the binaries from the restored tree (a later direct invocation must not see the seeded change)
+( cd /verif && ./check setup ) >/dev/null 2>&1
 exit $rc_all
